@@ -1182,7 +1182,7 @@ func dbtype(abitype string, d []byte) any {
 			return d[31] == 0x01
 		}
 		return false
-	case abitype == "string":
+	case abitype == "string", strings.HasPrefix(abitype, "string["):
 		return string(d)
 	case abitype == "bytes", strings.HasPrefix(abitype, "bytes["):
 		if len(d) == 0 {
